@@ -25,7 +25,7 @@ type c08Case struct {
 	Hist  []int `json:"history"` // op indices applied before
 	Op    int   `json:"op"`
 	Depth int   `json:"depth"`
-	Via   int   `json:"via,omitempty"` // how the IKE SA object came to be: 0 GenerateKeyForIKESA on algorithm descriptors; 1 security.NewIKESAKey (proposal + peer public value: the responder path, Diffie-Hellman included)
+	Via   int   `json:"via,omitempty"` // how the IKE SA object came to be: 0 GenerateKeyForIKESA on algorithm descriptors; 1 security.NewIKESAKey (proposal + peer public value: the responder path, Diffie-Hellman included); 2 keyed twice; 3 only PrfInfo and Prf_d set
 }
 
 type c08Op struct {
@@ -68,6 +68,18 @@ func c08Fresh(prfIdx, pat int) (*security.IKESAKey, []byte) {
 	cs := c07Case{PRF: prfIdx, Integ: 1, Encr: 0, DH: 1}
 	sa := infoSA(cs)
 	nonce := univ.Pat(48, pat)
+	if c08Via == 2 {
+		// an object that was keyed before (other exchange material) and is keyed again
+		if err := sa.GenerateKeyForIKESA(univ.Pat(40, pat+9), univ.Pat(256, pat+10), 3, 4); err != nil {
+			panic(err)
+		}
+	}
+	if c08Via == 3 {
+		// the smallest object the derivation needs (as the library's own tests build it): PRF descriptor and the
+		// keyed SK_d object, nothing else
+		want := ref.DeriveIKE(ref.PRFs[prfIdx], ref.Integs[1], 16, nonce, univ.Pat(256, pat+1), 7, 9)
+		return &security.IKESAKey{PrfInfo: sa.PrfInfo, Prf_d: sa.PrfInfo.Init(append([]byte(nil), want.SKd...))}, want.SKd
+	}
 	if c08Via == 1 {
 		sa.DhInfo = dh.StrToType("DH_1024_BIT_MODP") // the smaller group: a fresh object is built for every transition
 		prop, err := sa.ToProposal()
@@ -306,13 +318,13 @@ func runC08(c *engine.Ctx) {
 		panic(err)
 	}
 	for prfIdx := 0; prfIdx < 3; prfIdx++ {
-		for pi, pat := range []int{1, 2 + int(c.Seed%5), 1} {
+		for pi, pat := range []int{1, 2 + int(c.Seed%5), 1, 1, 1} {
 			if !c.Mine() {
 				continue
 			}
 			c08Via = 0
-			if pi == 2 {
-				c08Via = 1 // the IKE SA comes from NewIKESAKey (Diffie-Hellman run inside the library)
+			if pi >= 2 {
+				c08Via = pi - 1 // 1: the IKE SA comes from NewIKESAKey; 2: keyed twice; 3: only PrfInfo + Prf_d set
 			}
 			via := c08Via
 			c08UseRefill = pi == 1 // caller model: adjacent windows of one arena / one buffer per length refilled in place
